@@ -248,15 +248,21 @@ fn scenario<C: MlsConfig>(rng: &mut Rng, mk: Mk<C>, out: &mut Out) {
         next += batch;
         // some joiners hold an older key package next to the one that is going to be added
         let mut decoys: Vec<Option<BTreeSet<Vec<u8>>>> = vec![];
+        // the older key package itself (the Welcome will be re-addressed to it further down)
+        let mut decoy_kps: Vec<Option<MlsMessage>> = vec![];
         for &j in &joiners {
             if rng.chance(1, 2) {
-                w.members[j].client.generate_key_package_message(Default::default(), Default::default(), None).unwrap();
+                let d = w.members[j].client.generate_key_package_message(Default::default(), Default::default(), None).unwrap();
                 decoys.push(Some(kp_ids(&w, j)));
+                decoy_kps.push(Some(d));
             } else {
                 decoys.push(None);
+                decoy_kps.push(None);
             }
         }
         let kps: Vec<MlsMessage> = joiners.iter().map(|&j| w.members[j].client.generate_key_package_message(Default::default(), Default::default(), None).unwrap()).collect();
+        let kps_kept = kps.clone();
+        let stranger_kp = w.members[stranger].client.generate_key_package_message(Default::default(), Default::default(), None).unwrap();
         let committer = *rng.pick(&(0..joiners[0]).filter(|&i| w.members[i].group.is_some()).collect::<Vec<_>>());
         let tree_prev = w.group(committer).export_tree().to_bytes().unwrap();
         let (r, o) = w.with_group(committer, |g| {
@@ -286,6 +292,22 @@ fn scenario<C: MlsConfig>(rng: &mut Rng, mk: Mk<C>, out: &mut Out) {
         };
         for (jn, &j) in joiners.iter().enumerate() {
             // ---- the mismatch matrix: each combination is refused and leaves the key package in place --------------------
+            // a Welcome RE-ADDRESSED by somebody who knows its group secrets (hook verif_retarget_welcome): sealed to ANOTHER key
+            // package of the same client, or to a key package of a stranger, while GroupInfo and tree still hold the leaf of the
+            // key package that was added: the addressed key package has no leaf in the tree, nobody may obtain a group from it
+            {
+                let good_tree = if tree_ext { None } else { Some(&tree) };
+                for wm in &o.welcome_messages {
+                    if let Some(d) = &decoy_kps[jn] {
+                        if let Ok(x) = w.members[j].client.verif_retarget_welcome(wm, &kps_kept[jn], d) {
+                            expect_join_err(&w, j, good_tree, &[x], "welcome-readdressed-to-other-key-package-of-the-joiner", out);
+                        }
+                    }
+                    if let Ok(x) = w.members[j].client.verif_retarget_welcome(wm, &kps_kept[jn], &stranger_kp) {
+                        expect_join_err(&w, stranger, good_tree, &[x], "welcome-readdressed-to-a-stranger", out);
+                    }
+                }
+            }
             if !tree_ext {
                 expect_join_err(&w, j, Some(&tree_prev), &o.welcome_messages, "tree-of-previous-epoch", out);
                 match &tree_next {
